@@ -5,8 +5,14 @@
 //! take exponential time: oracles no-crash / time-bounded of the child process, plus an output-size
 //! bound.
 use super::*;
+use read_fonts::array::ComputedArray;
 use read_fonts::tables::colr::Paint;
-use read_fonts::{FontData, FontRead};
+use read_fonts::tables::gpos::{MarkBasePosFormat1, PairPosFormat2, SinglePosFormat2, ValueRecord};
+use read_fonts::tables::gvar::Gvar;
+use read_fonts::tables::hdmx::Hdmx;
+use read_fonts::tables::variations::{ItemVariationStore, Tuple};
+use read_fonts::traversal::SomeTable;
+use read_fonts::{FontData, FontRead, FontReadWithArgs};
 
 /// `levels` PaintTranslate tables, each pointing 4 bytes ahead, ending in a PaintSolid
 fn translate_chain(levels: usize) -> Vec<u8> {
@@ -43,7 +49,151 @@ fn debug_walk(bytes: &[u8], o: &mut Obs) {
     }
 }
 
+// ------------------------------------------------------------------------------------------------
+// computed-size record arrays whose run-time item size is 0: `ComputedArray::len()` is 0; `get(i)` must
+// not succeed for every `i` (the array printer and `SomeArray::iter` stop at the first `None`)
+
+/// (name, table bytes) for every table family with a computed-size record array, item size 0
+fn zero_item_tables() -> Vec<(&'static str, Vec<u8>)> {
+    let mut v: Vec<(&'static str, Vec<u8>)> = vec![];
+    // gvar: axisCount 0, 3 shared tuples at offset 20, no glyphs
+    let mut b = B::new();
+    b.u16(1).u16(0).u16(0).u16(3).u32(20).u16(0).u16(0).u32(20).u16(0);
+    v.push(("gvar.axis0", b.v));
+    // SinglePosFormat2: empty value format, 5 records; coverage at 8
+    let mut b = B::new();
+    b.u16(2).u16(8).u16(0).u16(5).u16(1).u16(1).u16(7);
+    v.push(("singlepos2.format0", b.v));
+    // PairPosFormat2: class2Count 0, class1Count 4 (Class1Record of size 0)
+    let mut b = B::new();
+    b.u16(2).u16(16).u16(0x0004).u16(0).u16(22).u16(22).u16(4).u16(0);
+    b.u16(1).u16(1).u16(7); // coverage at 16
+    b.u16(1).u16(0).u16(0); // class def at 22
+    v.push(("pairpos2.class2count0", b.v));
+    // MarkBasePosFormat1: markClassCount 0, base array with 6 records of size 0
+    let mut b = B::new();
+    b.u16(1).u16(12).u16(12).u16(0).u16(18).u16(22);
+    b.u16(1).u16(1).u16(7); // coverage at 12
+    b.u16(0).u16(0); // mark array at 18: count 0
+    b.u16(6); // base array at 22: 6 records of 0 offsets each
+    v.push(("markbase.markclasscount0", b.v));
+    // ItemVariationStore: region list with axisCount 0, 4 regions
+    let mut b = B::new();
+    b.u16(1).u32(8).u16(0).u16(0).u16(4);
+    v.push(("ivs.axis0", b.v));
+    // hdmx: sizeDeviceRecord 0 (records cannot be read from 0 bytes: must simply end)
+    let mut b = B::new();
+    b.u16(0).u16(3).u32(0);
+    v.push(("hdmx.size0", b.v));
+    v
+}
+
+fn zero_item_walk(name: &'static str) -> impl Fn(&[u8], &mut Obs) {
+    move |bytes: &[u8], o: &mut Obs| {
+        let data = FontData::new(bytes);
+        let cap = bytes.len() + 1;
+        // the real traversal: Debug printer (array loop `while let Some(item) = array.get(idx)`) and
+        // the generic field / array iterators
+        fn walk_table<'a>(t: &(dyn SomeTable<'a> + 'a), cap: usize, depth: u32, o: &mut Obs) {
+            if depth > 6 {
+                return;
+            }
+            let mut nfields = 0usize;
+            for f in t.iter() {
+                nfields += 1;
+                if nfields > 64 {
+                    break;
+                }
+                match f.value {
+                    read_fonts::traversal::FieldType::Array(a) => {
+                        o.note(a.len() as u64);
+                        o.drain("SomeArray.iter", cap.max(a.len()) + 1, a.iter(), |o, _| o.note(1));
+                    }
+                    read_fonts::traversal::FieldType::ResolvedOffset(r) => {
+                        if let Ok(t2) = r.target {
+                            walk_table(&*t2, cap, depth + 1, o);
+                        }
+                    }
+                    _ => {}
+                }
+            }
+        }
+        macro_rules! both {
+            ($t:expr) => {{
+                if let Ok(t) = $t {
+                    walk_table(&t, cap, 0, o);
+                    let s = format!("{t:?}");
+                    o.note(s.len() as u64);
+                }
+            }};
+        }
+        match name {
+            "gvar.axis0" => {
+                both!(Gvar::read(data));
+                if let Ok(g) = Gvar::read(data) {
+                    if let Ok(st) = g.shared_tuples() {
+                        let arr = st.tuples();
+                        o.drain("tuples.iter", cap, arr.iter(), |o, _| o.note(2));
+                        for i in edge_usize(&[arr.len()]) {
+                            if arr.get(i).is_ok() && i >= arr.len() {
+                                o.over = Some(format!("ComputedArray::get({i}) is Ok but len() is {}", arr.len()));
+                            }
+                        }
+                    }
+                }
+            }
+            "singlepos2.format0" => both!(SinglePosFormat2::read(data)),
+            "pairpos2.class2count0" => both!(PairPosFormat2::read(data)),
+            "markbase.markclasscount0" => both!(MarkBasePosFormat1::read(data)),
+            "ivs.axis0" => both!(ItemVariationStore::read(data)),
+            _ => {
+                for ng in [0u16, 1, 5] {
+                    both!(Hdmx::read_with_args(data, &ng));
+                }
+            }
+        }
+    }
+}
+
+/// `ComputedArray` directly: `get(i)` may only succeed below `len()` (Model/HandRead.lean
+/// `computedGet`, Props/C01Hand.lean `computedGet_lt_len`)
+fn computed_array_cases(ctx: &mut Ctx) {
+    for data_len in 0..=12usize {
+        for axis_count in [0u16, 1, 2, 3] {
+            let d = vec![0x11u8; data_len];
+            let what = format!("hd.comp {} {}", data_len, axis_count as usize * 2);
+            PROGRESS.fetch_add(1, Ordering::Relaxed);
+            let r = catch(|| {
+                let arr = ComputedArray::<Tuple>::new(FontData::new(&d), axis_count).unwrap();
+                let mut out = vec![arr.len().to_string()];
+                for i in [0usize, 1, 2, 5, 6, 7, 12, 13, usize::MAX / 2, usize::MAX] {
+                    out.push(if arr.get(i).is_ok() { "o".into() } else { "e".into() });
+                }
+                // value records: item size 0 for the empty value format
+                let vr = ComputedArray::<ValueRecord>::new(FontData::new(&d), read_fonts::tables::gpos::ValueFormat::empty()).unwrap();
+                out.push(format!("{}{}", vr.len(), if vr.get(0).is_ok() { "o" } else { "e" }));
+                (join(&out), arr.iter().take(data_len + 2).count())
+            });
+            match r {
+                Ok((s, n)) => {
+                    ctx.oracle("no-panic", true, String::new, String::new);
+                    ctx.oracle("iter-bounded", n <= data_len, || what.clone(), || format!("iter yielded {n} items on {data_len} bytes"));
+                    ctx.case(what, s);
+                }
+                Err(m) => ctx.oracle("no-panic", false, || what.clone(), || m.clone()),
+            }
+        }
+    }
+}
+
 pub fn run(ctx: &mut Ctx) {
+    computed_array_cases(ctx);
+    for (name, bytes) in zero_item_tables() {
+        let b = B { v: bytes, fields: vec![] };
+        let f = zero_item_walk(name);
+        ctx.drive(&format!("zero-item {name}"), &b, &f);
+        ctx.count("zero-item-tables");
+    }
     // run on a thread with a fixed, modest stack so that the outcome does not depend on `ulimit -s`
     let mut cases: Vec<(String, Vec<u8>)> = vec![];
     for levels in [1usize, 8, 63, 64, 65, 200, 5000, 200_000] {
